@@ -5,10 +5,10 @@ import "time"
 func init() {
 	registry = append(registry, property{id: "C06", parts: []part{
 		{name: "determinism", pkg: "./c06", run: "^TestDeterminism$",
-			shards: [2]int{16, 16}, checks: [2]int{3, 50}, timeout: [2]time.Duration{15 * min, 40 * min},
+			shards: [2]int{16, 16}, checks: [2]int{3, 50}, timeout: [2]time.Duration{15 * min, 80 * min},
 			bins: []string{"goose"}},
 		{name: "race", pkg: "./c06", run: "^TestRace$",
-			shards: [2]int{1, 4}, checks: [2]int{3, 40}, timeout: [2]time.Duration{15 * min, 40 * min},
+			shards: [2]int{1, 4}, checks: [2]int{3, 40}, timeout: [2]time.Duration{15 * min, 80 * min},
 			bins: []string{"goose-race"}},
 	}})
 }
